@@ -38,7 +38,9 @@ RULE = ("a case = (configuration, payload sizes, fault script actually applied);
         "0-3 x DID none/1-14 x NAD on/off x WT x RTOX requests x payload sizes {1, n*miu-1, n*miu, n*miu+1, max} both "
         "ways x 1-12 exchanges (PNI wrap); scripts: exhaustive over all <=k faults {lose, corrupt} on the first L "
         "frames after activation (quick k=2 L=12, thorough k=3 L=24; enumerated depth-first over the frames that "
-        "really occur, so each script is distinct), then random scripts with 5-40 % faults; non-trivial = the "
+        "really occur, so each script is distinct), then random scripts with 5-40 % faults (one in five of them also "
+        "with replayed responses or frames cut to 0-4 bytes: signature families stale/ and garbled/, no recovery "
+        "verdict), a fifth of the random ones with tight time-outs (delivery verdict only); non-trivial = the "
         "conversation got through activation and at least one DEP frame was exchanged")
 ASSUMPTIONS = [
     "vf.sim.air models the driver level: half-duplex, a lost frame is silence until the receiver's deadline, a "
